@@ -91,3 +91,119 @@ package journal
 //@   loop 8 invariant forall m int :: {elemAddr(a.Balances, m)} 0 <= m && m < $i ==> tkind(entry(tlen()) + m) == kind("Balance") && targ0(entry(tlen()) + m) == a && targ1(entry(tlen()) + m) == elemAddr(a.Balances, m)
 //@   loop 10 invariant 0 <= $i && $i <= len(a.Balances)
 //@   loop 10 invariant forall m int :: {elemAddr(a.Balances, m)} 0 <= m && m < $i ==> tkind(entry(tlen()) + m) == kind("Balance") && targ0(entry(tlen()) + m) == a && targ1(entry(tlen()) + m) == elemAddr(a.Balances, m)
+//
+// ---- processors (closures of process.go) --------------------------------------------------------
+//
+// ComputePrices: prices are inserted on their day; at the end of a day with price directives the
+// normalised prices are recomputed, otherwise the previous ones are carried forward.
+//@ func ComputePrices$1
+//@   requires wfPrices(prc) && p != nil && p.Commodity != nil && p.Target != nil
+//@   modifies prc[*], prc[p.Target][*], prc[p.Commodity][*]
+//@   ensures wfPrices(prc)
+//@   ensures (result == nil) <==> p.Price != 0
+//
+//@ func ComputePrices$2
+//@   requires wfPrices(prc) && d != nil
+//@   modifies previous, d.Normalized
+//@   ensures result == nil && d.Normalized == previous && wfPrices(prc)
+//@   ensures len(d.Prices) == 0 ==> previous == old(previous)
+//@   ensures len(d.Prices) > 0 ==> fresh(previous) && (v in previous) && previous[v] == 1.0
+//
+// Valuate, posting callback: the value of a posting is its quantity in the valuation commodity, else
+// quantity x today's normalised price truncated to 8 decimals; a missing price is an error and the
+// value is left untouched; asset/liability quantities are accumulated for the daily revaluation.
+//@ def keysOK(q amounts.Amounts) bool := q != nil && (forall k amounts.Key :: {key(q, k)} (k in q) ==> validAccount(k.Account) && k.Commodity != nil)
+//
+//@ func Valuate$2
+//@   requires p != nil && validAccount(p.Account) && p.Commodity != nil && keysOK(quantities)
+//@   modifies p.Value, quantities[*]
+//@   ensures keysOK(quantities)
+//@   ensures @zero: p.Quantity == 0 ==> result == nil && p.Value == old(p.Value)
+//@   ensures @same: p.Quantity != 0 && valuation == p.Commodity ==> result == nil && p.Value == p.Quantity
+//@   ensures @priced: p.Quantity != 0 && valuation != p.Commodity && (p.Commodity in prices) ==> result == nil && p.Value == mult(p.Quantity, prices[p.Commodity])
+//@   ensures @missing: p.Quantity != 0 && valuation != p.Commodity && !(p.Commodity in prices) ==> result != nil && p.Value == old(p.Value)
+//@   ensures @track: p.Quantity != 0 && isAL(p.Account) ==> dom(quantities) == upd(old(dom(quantities)), amounts.Key{Account: p.Account, Commodity: p.Commodity}, true)
+//@        && vals(quantities) == upd(old(vals(quantities)), amounts.Key{Account: p.Account, Commodity: p.Commodity}, old(quantities[amounts.Key{Account: p.Account, Commodity: p.Commodity}]) + p.Quantity)
+//@   ensures @notrack: p.Quantity == 0 || !isAL(p.Account) ==> dom(quantities) == old(dom(quantities)) && vals(quantities) == old(vals(quantities))
+//
+//@ func Valuate$3
+//@   requires d != nil
+//@   modifies prevPrices
+//@   ensures result == nil && prevPrices == d.Normalized
+//
+// Filter: days outside the window lose their transactions, days inside keep them.
+//@ func Filter$1
+//@   requires d != nil
+//@   modifies d.Transactions
+//@   ensures result == nil
+//@   ensures (part.span.Start <= d.Date && d.Date <= part.span.End) ==> d.Transactions == old(d.Transactions)
+//@   ensures !(part.span.Start <= d.Date && d.Date <= part.span.End) ==> d.Transactions == nil
+//
+// Valuate, day start: today's prices become current; every asset/liability position in a foreign
+// commodity with a non-zero quantity is revalued: if the price moved, one balanced adjustment
+// transaction (quantity 0, value = (price today - price before) x quantity, truncated) is appended;
+// existing transactions are kept. If a needed price is missing the callback fails.
+//@ def needsReval(k amounts.Key, q amounts.Amounts, v *commodity.Commodity) bool := k.Commodity != v && isAL(k.Account) && q[k] != 0
+//@ def adjustment(tr *transaction.Transaction, d *Day) bool := okTx(tr) && tr.Postings[1].Quantity == 0 && tr.Postings[0].Quantity == 0 && tr.Date == d.Date
+//
+//@ func Valuate$1
+//@   requires d != nil && keysOK(quantities) && reg != nil && reg.accounts != nil
+//@   modifies prices, d.Transactions, d.Transactions[*], reg.accounts.index[*], reg.accounts.swaps[*]
+//@   ensures @today: prices == d.Normalized
+//@   ensures @missing: result == nil ==> (forall k amounts.Key :: {key(quantities, k)} (k in quantities) && needsReval(k, quantities, valuation) ==> (k.Commodity in prevPrices) && (k.Commodity in d.Normalized))
+//@   ensures @kept: len(d.Transactions) >= old(len(d.Transactions)) && (forall j int :: {d.Transactions[j]} 0 <= j && j < old(len(d.Transactions)) ==> d.Transactions[j] == old(d.Transactions[j]))
+//@   ensures @adj: forall j int :: {d.Transactions[j]} old(len(d.Transactions)) <= j && j < len(d.Transactions) ==> adjustment(d.Transactions[j], d)
+//@   loop 1 invariant prices == d.Normalized && keysOK(quantities) && d.Date == old(d.Date) && d.Normalized == old(d.Normalized)
+//@   loop 1 invariant forall k amounts.Key :: {$seen[k]} $seen[k] && needsReval(k, quantities, valuation) ==> (k.Commodity in prevPrices) && (k.Commodity in d.Normalized)
+//@   loop 1 invariant len(d.Transactions) >= old(len(d.Transactions)) && (forall j int :: {d.Transactions[j]} 0 <= j && j < old(len(d.Transactions)) ==> d.Transactions[j] == old(d.Transactions[j]))
+//@   loop 1 invariant forall j int :: {d.Transactions[j]} old(len(d.Transactions)) <= j && j < len(d.Transactions) ==> okTx(d.Transactions[j])
+//@   loop 1 invariant forall j int :: {d.Transactions[j]} old(len(d.Transactions)) <= j && j < len(d.Transactions) ==> d.Transactions[j].Postings[1].Quantity == 0 && d.Transactions[j].Postings[0].Quantity == 0 && d.Transactions[j].Date == d.Date
+//
+// CloseAccounts: on a closing day every accumulated income/expense/equity position with a non-zero
+// quantity or value is transferred to Equity:Equity by one balanced transaction; postings on
+// asset/liability accounts and on Equity:Equity itself are not accumulated.
+//@ func CloseAccounts$2
+//@   requires p != nil && validAccount(p.Account) && p.Commodity != nil && keysOK(quantities) && values != nil && quantities != values
+//@   ensures keysOK(quantities)
+//@   modifies quantities[*], values[*]
+//@   ensures result == nil
+//@   ensures @skip: isAL(p.Account) || p.Account == equityAccount ==> dom(quantities) == old(dom(quantities)) && vals(quantities) == old(vals(quantities))
+//@        && dom(values) == old(dom(values)) && vals(values) == old(vals(values))
+//@   ensures @acc: !isAL(p.Account) && p.Account != equityAccount ==>
+//@        dom(quantities) == upd(old(dom(quantities)), amounts.Key{Account: p.Account, Commodity: p.Commodity}, true)
+//@        && vals(quantities) == upd(old(vals(quantities)), amounts.Key{Account: p.Account, Commodity: p.Commodity}, old(quantities[amounts.Key{Account: p.Account, Commodity: p.Commodity}]) + p.Quantity)
+//@        && dom(values) == upd(old(dom(values)), amounts.Key{Account: p.Account, Commodity: p.Commodity}, true)
+//@        && vals(values) == upd(old(vals(values)), amounts.Key{Account: p.Account, Commodity: p.Commodity}, old(values[amounts.Key{Account: p.Account, Commodity: p.Commodity}]) + p.Value)
+//
+//@ func CloseAccounts$1
+//@   requires d != nil && keysOK(quantities) && values != nil && closingDays != nil
+//@   modifies d.Transactions, d.Transactions[*]
+//@   ensures result == nil
+//@   ensures @notclosing: !(d in closingDays) ==> d.Transactions == old(d.Transactions)
+//@   ensures @kept: len(d.Transactions) >= old(len(d.Transactions)) && (forall j int :: {d.Transactions[j]} 0 <= j && j < old(len(d.Transactions)) ==> d.Transactions[j] == old(d.Transactions[j]))
+//@   ensures @closing: forall j int :: {d.Transactions[j]} old(len(d.Transactions)) <= j && j < len(d.Transactions) ==> okTx(d.Transactions[j]) && d.Transactions[j].Date == d.Date
+//@   loop 1 invariant d.Date == old(d.Date)
+//@   loop 1 invariant len(d.Transactions) >= old(len(d.Transactions)) && (forall j int :: {d.Transactions[j]} 0 <= j && j < old(len(d.Transactions)) ==> d.Transactions[j] == old(d.Transactions[j]))
+//@   loop 1 invariant forall j int :: {d.Transactions[j]} old(len(d.Transactions)) <= j && j < len(d.Transactions) ==> okTx(d.Transactions[j]) && d.Transactions[j].Date == d.Date
+//
+// Query.Into: each posting that passes the filter is inserted exactly once, under the selected key,
+// with its quantity - or with its value when a valuation commodity is set; other postings not at all.
+// (Where and Select are caller-supplied and treated as pure functions; Insert is recorded in the trace.)
+//@ def keyOf(t *transaction.Transaction, b *posting.Posting, v *commodity.Commodity) amounts.Key :=
+//@     amounts.Key{Date: t.Date, Account: b.Account, Other: b.Other, Commodity: b.Commodity, Valuation: v, Description: t.Description}
+//
+//@ func (Query).Into$1
+//@   requires t != nil && b != nil
+//@   pure Where, Select
+//@   callback Insert=0
+//@   ensures result == nil
+//@   ensures @one: query.Where(keyOf(t, b, query.Valuation)) ==> tlen() == old(tlen()) + 1
+//@        && targ("Insert", 0, old(tlen())) == query.Select(keyOf(t, b, query.Valuation))
+//@        && targ("Insert", 1, old(tlen())) == (query.Valuation != nil ? b.Value : b.Quantity)
+//@   ensures @none: !query.Where(keyOf(t, b, query.Valuation)) ==> tlen() == old(tlen())
+//
+// Sort: the transactions of a day are sorted in place (a permutation of the same slice).
+//@ func Sort$1
+//@   requires d != nil
+//@   modifies d.Transactions[*]
+//@   ensures result == nil && d.Transactions == old(d.Transactions)
